@@ -401,41 +401,37 @@ example : (true = true ∨ CT.bool ≠ CT.bool ∨ CT.bool ≠ CT.bool) := Or.in
 /-! ## integer literals (unbounded: every value, every triple of maxima) -/
 
 /-- the type the code gives an integer literal is the type of C17 6.4.4.1p5 / C++17 [lex.icon], for EVERY value and every
-    platform with INT_MAX ≤ LONG_MAX ≤ LLONG_MAX, PROVIDED the literal is outside
-      K6 `hexWindow` (hex/binary literal with UINT_MAX < value ≤ 2·UINT_MAX+1, resp. the same for `long`) and
-      K7 `octalAsDecimal` (octal literal whose type is `unsigned int` / `unsigned long`),
+    platform with INT_MAX ≤ LONG_MAX, PROVIDED the literal is outside
+      K6 `octalAsDecimal` (octal literal without `u` whose type is `unsigned int` / `unsigned long`),
     and has a type at all (`hfit`, `hfitd`).  `dec` as the code sees it: `base != hex` (an octal literal is all digits). -/
 theorem literal_type_partial (imax lmax llmax value longs : Nat) (base : Base) (us : Bool)
     (hm1 : imax ≤ lmax) (hl : longs ≤ 2)
-    (h6 : hexWindow imax lmax base longs value = false)
     (h7 : octalAsDecimal imax lmax base us longs value = false)
     (hfit : value ≤ 2 * llmax + 1) (hfitd : base = .dec → us = false → value ≤ llmax) :
     (litSpec imax lmax llmax base us longs value).map asVT
       = some (litTypeCore imax lmax llmax (base != .hex) us longs value) := by
   have e1 : value >>> 1 = value / 2 := by simp [Nat.shiftRight_eq_div_pow]
-  have e2 : value >>> 2 = value / 4 := by simp [Nat.shiftRight_eq_div_pow]
   have hl' : longs = 0 ∨ longs = 1 ∨ longs = 2 := by omega
-  simp only [hexWindow, octalAsDecimal] at h6 h7
+  simp only [octalAsDecimal] at h7
   rcases hl' with rfl | rfl | rfl <;> cases base <;> cases us <;>
-    simp [litSpec, firstFit, litTypeCore, e1, e2, apply_ite (Option.map asVT), asVT, declVT] at h6 h7 hfitd ⊢ <;>
+    simp [litSpec, firstFit, litTypeCore, e1, apply_ite (Option.map asVT), asVT, declVT] at h7 hfitd ⊢ <;>
     (repeat' split) <;> first | rfl | omega | simp_all
 
--- the hypotheses are satisfiable: `0x80000000` with 32-bit int, 64-bit long (typed `unsigned int`)
-example : hexWindow 2147483647 9223372036854775807 .hex 0 2147483648 = false ∧
-    octalAsDecimal 2147483647 9223372036854775807 .hex false 0 2147483648 = false := by decide
+-- the hypotheses are satisfiable: `020000000000` (2^31, octal) with 32-bit int and the `u` suffix
+example : octalAsDecimal 2147483647 9223372036854775807 .oct true 0 2147483648 = false := by decide
+example : octalAsDecimal 2147483647 9223372036854775807 .hex false 0 4294967296 = false := by decide
 
-/-- K6 and K7 are exactly classes of deviations: inside them the code never gives the language's type -/
-theorem literal_window_deviates (imax lmax llmax value longs : Nat) (base : Base) (us : Bool)
+/-- K6 is exactly a class of deviations: inside it the code never gives the language's type -/
+theorem literal_octal_deviates (imax lmax llmax value longs : Nat) (base : Base) (us : Bool)
     (hm1 : imax ≤ lmax) (hl : longs ≤ 2)
-    (h : hexWindow imax lmax base longs value = true ∨ octalAsDecimal imax lmax base us longs value = true) :
+    (h : octalAsDecimal imax lmax base us longs value = true) :
     (litSpec imax lmax llmax base us longs value).map asVT
       ≠ some (litTypeCore imax lmax llmax (base != .hex) us longs value) := by
   have e1 : value >>> 1 = value / 2 := by simp [Nat.shiftRight_eq_div_pow]
-  have e2 : value >>> 2 = value / 4 := by simp [Nat.shiftRight_eq_div_pow]
   have hl' : longs = 0 ∨ longs = 1 ∨ longs = 2 := by omega
-  simp only [hexWindow, octalAsDecimal] at h
+  simp only [octalAsDecimal] at h
   rcases hl' with rfl | rfl | rfl <;> cases base <;> cases us <;>
-    simp [litSpec, firstFit, litTypeCore, e1, e2, apply_ite (Option.map asVT), asVT, declVT] at h ⊢ <;>
+    simp [litSpec, firstFit, litTypeCore, e1, apply_ite (Option.map asVT), asVT, declVT] at h ⊢ <;>
     (repeat' split) <;> first | omega | simp_all | (intro hh; simp_all; omega)
 
 /-- the maxima of every platform of the table are ordered, so `literal_type_partial` applies to it -/
@@ -443,16 +439,16 @@ theorem platforms_maxima_ordered : ∀ P ∈ platforms,
     maxValue (P.charBit * P.sizeofInt) ≤ maxValue (P.charBit * P.sizeofLong) ∧
     maxValue (P.charBit * P.sizeofLong) ≤ maxValue (P.charBit * P.sizeofLongLong) := by decide
 
-/-- K6 witness: `0x100000000` on unix64 is typed `unsigned int`; the language gives `long` -/
-theorem literal_counterexample_hex :
-    ∃ P ∈ platforms, P.name = "unix64" ∧ litType P false false false 0 4294967296 = ⟨.int, .unsigned⟩ ∧
-      litSpec (maxValue (P.charBit * P.sizeofInt)) (maxValue (P.charBit * P.sizeofLong))
-        (maxValue (P.charBit * P.sizeofLongLong)) .hex false 0 4294967296 = some .long := by decide
-
-/-- K7 witness: `037777777777` (= UINT_MAX) on unix64 is typed `long`; the language gives `unsigned int` -/
+/-- K6 witness: `037777777777` (= UINT_MAX) on unix64 is typed `long`; the language gives `unsigned int` -/
 theorem literal_counterexample_oct :
     ∃ P ∈ platforms, P.name = "unix64" ∧ litType P false true false 0 4294967295 = ⟨.long, .signed⟩ ∧
       litSpec (maxValue (P.charBit * P.sizeofInt)) (maxValue (P.charBit * P.sizeofLong))
         (maxValue (P.charBit * P.sizeofLongLong)) .oct false 0 4294967295 = some .uint := by decide
+
+/-- regression of the repaired `>> 2` window (/repo a4b8285): `0x100000000` on unix64 is `long` in model and language -/
+theorem literal_hex_window_closed :
+    ∃ P ∈ platforms, P.name = "unix64" ∧ litType P false false false 0 4294967296 = ⟨.long, .signed⟩ ∧
+      litSpec (maxValue (P.charBit * P.sizeofInt)) (maxValue (P.charBit * P.sizeofLong))
+        (maxValue (P.charBit * P.sizeofLongLong)) .hex false 0 4294967296 = some .long := by decide
 
 end Cppcheck.C09
